@@ -840,6 +840,18 @@ func cmdMem(args []string) {
 			for range d.Seq("BottomK", 0, 0, 1+k%3) {
 			}
 		}},
+		{"q-ends-stopped", func(k int) {
+			// the consumer leaves before the k-th element
+			for range d.Seq("TopK", 0, 0, 4+k%3) {
+				break
+			}
+			n := 0
+			for range d.Seq("BottomK", 0, 0, 4+k%3) {
+				if n++; n == 2 {
+					break
+				}
+			}
+		}},
 		{"q-walk", func(k int) {
 			n := 0
 			for range d.Seq("All", 0, 0, 0) {
